@@ -217,24 +217,21 @@ theorem resolveConstant_symframe (st : Static) (d d' : Defs) (ctx : RCtx) (l : N
           · subst h1; rw [hr'] at hres; cases hres
         · injection hn with _ _ _ _ h5; injection h5 with h5; subst h5
           rw [hr'] at hres; cases hres
-      rcases ite_ok_inv _ _ _ _ h with ⟨hc, h⟩ | ⟨hc, h⟩
-      · injection h with h; injection h with h1 _
-        refine ⟨key true h1.symm, fun _ _ _ => ?_⟩
-        subst h1
-        rcases sym_setSym d ref ref { d.sym ref with value := v, resolved := true } with h1 | ⟨_, h2⟩
-        · by_cases hl : ref < d.symbols.length
-          · right
-            unfold Defs.setSym Defs.sym
-            simp only [getD_set_self_lt d.symbols ref _ none hl]
-            rfl
-          · exact Or.inl (Nat.not_lt.mp hl)
-        · right; rw [h2]
-      · have hd : d' = d.setSym ref { d.sym ref with value := v, resolved := (d.sym ref).resolved } := by
-          rcases ite_ok_inv _ _ _ _ h with ⟨_, h⟩ | ⟨_, h⟩ <;>
-          · injection h with h; injection h with h1 _; exact h1.symm
-        refine ⟨key _ hd, fun h1 h2 h3 => ?_⟩
-        exfalso; apply hc
-        simp [h1, h2, h3]
+      have hd : d' = d.setSym ref { d.sym ref with value := v, resolved := st.opts.optStatic && ctx.first && (d.sym ref).known } := by
+        rcases ite_ok_inv _ _ _ _ h with ⟨_, h⟩ | ⟨_, h⟩ <;>
+        · injection h with h; injection h with h1 _; exact h1.symm
+      refine ⟨key _ hd, fun h1 h2 h3 => ?_⟩
+      subst hd
+      rcases sym_setSym d ref ref { d.sym ref with value := v, resolved := st.opts.optStatic && ctx.first && (d.sym ref).known } with h4 | ⟨_, h4⟩
+      · by_cases hl : ref < d.symbols.length
+        · right
+          unfold Defs.setSym Defs.sym
+          simp only [getD_set_self_lt d.symbols ref _ none hl]
+          unfold Defs.sym at h3
+          simp only [h1, h2, Bool.and_self, Bool.true_and]
+          exact h3
+        · exact Or.inl (Nat.not_lt.mp hl)
+      · right; rw [h4]; simp [h1, h2, h3]
 
 theorem dispatch_symframe (st : Static) (d d' : Defs) (ctx : RCtx) (n : AstNode) (k : Nat) (s : Bool) (rep : List String)
     (h : dispatch st d ctx n k = .ok (d', s, rep)) : SymFrame n d d' := by
